@@ -51,6 +51,9 @@ func soleGraceful(sc Scenario, o *Outcome, c CloseRec) bool {
 // equal what crossed the wire" on the observations of one run.
 func CheckC03(sc Scenario, o *Outcome) []Finding {
 	var fs []Finding
+	if strings.HasSuffix(sc.Transport, "-silent") {
+		return nil // the TLS handshake never completes: the transport carries no data, nothing to deliver or count
+	}
 	for _, b := range o.PeerBad {
 		add(&fs, false, "peer-stream:integrity", "%s", b)
 	}
@@ -154,12 +157,24 @@ func CheckC03(sc Scenario, o *Outcome) []Finding {
 				bytes += int64(s.Wire)
 			}
 		}
-		if c.SentPkts < int64(before) || c.SentBytes < bytes {
+		if o.StatsN > 3 && (c.SentPkts < int64(before) || c.SentBytes < bytes) {
 			add(&fs, false, "close:returned-before-flush", "Close returned with %d packets / %d bytes written, but %d packets / %d bytes had been accepted before it was called",
 				c.SentPkts, c.SentBytes, before, bytes)
 		}
 	}
-	if o.Quiet {
+	if o.Quiet && o.StatsN <= 3 {
+		// a caller-supplied counter set that is too small for the four counters: the ones it has must still be right
+		// (index 0 bytes received, 1 bytes sent, 2 packets received), the missing ones read 0
+		if o.StatsN >= 2 && peerComplete && o.PeerErr == "" && o.Stats[1] != o.PeerBytes {
+			add(&fs, false, "counters:sent", "a counter set with %d counters: bytes-sent says %d, the peer received %d bytes up to end-of-stream", o.StatsN, o.Stats[1], o.PeerBytes)
+		}
+		for k := o.StatsN; k < 4; k++ {
+			if k >= 0 && o.Stats[k] != 0 {
+				add(&fs, false, "counters:phantom", "a counter set with %d counters answers %d for counter %d", o.StatsN, o.Stats[k], k)
+			}
+		}
+	}
+	if o.Quiet && o.StatsN > 3 {
 		// counters against what actually crossed the wire
 		if peerComplete && o.PeerErr == "" {
 			if o.Stats[3] != int64(len(o.PeerGot)) || o.Stats[1] != o.PeerBytes {
@@ -287,7 +302,10 @@ func CheckC04(sc Scenario, o *Outcome) []Finding {
 	if o.RunningEnd {
 		add(&fs, false, "running-after-close", "IsRunning() is true at the end")
 	}
-	if sc.Peer.Read != "never" && sc.Peer.Tail != "rst" && !o.PeerEOF {
+	// (over a transport that is closed as a whole — not half-closed like TCP — input this side left unread turns the
+	// peer's end-of-stream into a reset: still the stream end)
+	ended := o.PeerEOF || (o.PeerReset && sc.Transport != "" && sc.Transport != "tcp")
+	if sc.Peer.Read != "never" && sc.Peer.Tail != "rst" && !ended {
 		add(&fs, true, "peer:no-end-of-stream", "the peer did not see end-of-stream (its read ended with %q)", o.PeerErr)
 	}
 	return fs
